@@ -246,6 +246,9 @@ func (p *Path) shift(op token.Token, a *Term, signed bool, b *Term, yt types.Typ
 }
 
 func (p *Path) eqValue(x, y Value) *Term {
+	if r, ok := p.symStrEq(x, y); ok { // symstr.go
+		return r
+	}
 	switch a := x.(type) {
 	case *Term:
 		b, ok := y.(*Term)
@@ -324,7 +327,27 @@ func (p *Path) convert(from, to types.Type, v Value) Value {
 		return v
 	}
 	fu, tu := from.Underlying(), to.Underlying()
-	// pointer/unsafe conversions
+	// pointer/unsafe conversions.  unsafe.Pointer round trips are tracked: converting
+	// back is allowed only to the very pointer type the value came from (the
+	// noescape idiom); type punning through unsafe.Pointer is refused, never guessed.
+	if fb, ok := fu.(*types.Basic); ok && fb.Kind() == types.UnsafePointer {
+		if uv, isU := v.(UnsafeV); isU {
+			if types.Identical(uv.T, to) {
+				return uv.V
+			}
+			if tb, ok := tu.(*types.Basic); ok && tb.Kind() == types.UnsafePointer {
+				return v
+			}
+			panic(p.abort(fmt.Sprintf("unsafe.Pointer reinterpretation %s -> %s", uv.T, to)))
+		}
+		if ptr, isP := v.(Ptr); isP && ptr.Obj == nil {
+			if _, toPtr := tu.(*types.Pointer); toPtr {
+				return Ptr{}
+			}
+			return v
+		}
+		panic(p.abort("conversion from unsafe.Pointer of unknown origin to " + to.String()))
+	}
 	switch tu.(type) {
 	case *types.Pointer:
 		return v
@@ -332,7 +355,10 @@ func (p *Path) convert(from, to types.Type, v Value) Value {
 	if tb, ok := tu.(*types.Basic); ok {
 		switch {
 		case tb.Kind() == types.UnsafePointer:
-			return v
+			if ptr, isP := v.(Ptr); isP && ptr.Obj == nil {
+				return v
+			}
+			return UnsafeV{V: v, T: from}
 		case tb.Info()&types.IsInteger != 0:
 			w, _ := intWidth(tb)
 			switch x := v.(type) {
@@ -371,6 +397,8 @@ func (p *Path) convert(from, to types.Type, v Value) Value {
 			switch x := v.(type) {
 			case StrV:
 				return x
+			case SymStrV: // symstr.go
+				return x
 			case *Term: // integer -> string
 				if !x.IsConst() {
 					panic(p.abort("symbolic rune to string"))
@@ -385,8 +413,7 @@ func (p *Path) convert(from, to types.Type, v Value) Value {
 					for i := range buf {
 						e := p.load(x.Arr.child(x.Off + i)).(*Term)
 						if !e.IsConst() {
-							// fork over byte values is too expensive; treat as unsupported
-							panic(p.abort("string conversion of symbolic bytes"))
+							return symStrFromBytes(p.sliceBytes(x)) // symstr.go: string with symbolic bytes
 						}
 						buf[i] = byte(e.Uint64())
 					}
@@ -405,6 +432,12 @@ func (p *Path) convert(from, to types.Type, v Value) Value {
 		}
 	}
 	if ts, ok := tu.(*types.Slice); ok {
+		if s, isSym := v.(SymStrV); isSym { // symstr.go
+			if el, isB := ts.Elem().Underlying().(*types.Basic); isB && el.Kind() == types.Uint8 {
+				return p.termsToSlice(append([]*Term(nil), s.B...))
+			}
+			panic(p.abort("conversion of a symbolic string to a non-byte slice"))
+		}
 		if s, isStr := v.(StrV); isStr {
 			el := ts.Elem().Underlying().(*types.Basic)
 			if el.Kind() == types.Uint8 {
@@ -678,6 +711,8 @@ func (p *Path) index(fr *frame, in *ssa.Index) Value {
 		return res
 	case StrV:
 		return p.strIndex(s, idx)
+	case SymStrV: // symstr.go
+		return p.symStrIndex(s, idx)
 	}
 	panic(p.abort("Index of " + describe(x)))
 }
@@ -728,6 +763,9 @@ func (p *Path) lookup(fr *frame, in *ssa.Lookup) Value {
 	k := p.get(fr, in.Index)
 	if s, ok := x.(StrV); ok {
 		return p.strIndex(s, p.to64(p.term(k, "string index"), in.Index.Type()))
+	}
+	if s, ok := x.(SymStrV); ok { // symstr.go
+		return p.symStrIndex(s, p.to64(p.term(k, "string index"), in.Index.Type()))
 	}
 	m, ok := x.(*MapObj)
 	if !ok {
@@ -889,6 +927,8 @@ func (p *Path) builtin(fr *frame, b *ssa.Builtin, args []Value, cc *ssa.CallComm
 		switch x := args[0].(type) {
 		case StrV:
 			return BVConstU(uint64(len(x)), 64)
+		case SymStrV: // symstr.go
+			return BVConstU(uint64(len(x.B)), 64)
 		case SliceV:
 			return x.Len
 		case SymSliceV:
@@ -995,6 +1035,10 @@ func (p *Path) appendOp(a, b Value, cc *ssa.CallCommon) Value {
 		for i := 0; i < len(x); i++ {
 			add = append(add, BVConstU(uint64(x[i]), 8))
 		}
+	case SymStrV: // symstr.go
+		for _, e := range x.B {
+			add = append(add, e)
+		}
 	case SliceV:
 		for _, e := range p.sliceElems(x) {
 			add = append(add, copyVal(e))
@@ -1046,6 +1090,10 @@ func (p *Path) copyOp(dst, src Value) Value {
 	case StrV:
 		for i := 0; i < len(x); i++ {
 			srcVals = append(srcVals, BVConstU(uint64(x[i]), 8))
+		}
+	case SymStrV: // symstr.go
+		for _, e := range x.B {
+			srcVals = append(srcVals, e)
 		}
 	case SliceV:
 		// n = min(len(dst), len(src))
